@@ -1,0 +1,62 @@
+//! Verification hooks. Compiled only with `--cfg pdf_rs_pdf_verif`; without that flag this
+//! module does not exist and the crate is unchanged. Every hook is inert until a harness
+//! registers callbacks with `set_hooks`.
+use std::cell::Cell;
+use std::sync::OnceLock;
+
+#[derive(Clone, Copy)]
+pub struct Hooks {
+    /// called with the number of bytes one stream filter stage produced
+    pub decoded: fn(usize),
+    /// called before / after a `Lazy` cell runs its initialiser (argument: address of the cell)
+    pub lazy_enter: fn(usize),
+    pub lazy_exit: fn(usize),
+}
+
+static HOOKS: OnceLock<Hooks> = OnceLock::new();
+
+pub fn set_hooks(hooks: Hooks) {
+    let _ = HOOKS.set(hooks);
+}
+
+pub fn decoded(n: usize) {
+    if let Some(h) = HOOKS.get() {
+        (h.decoded)(n);
+    }
+}
+
+thread_local! {
+    static IN_DECODE: Cell<bool> = const { Cell::new(false) };
+}
+pub struct DecodeScope(());
+/// Returns `None` when the calling thread is already inside an observed `decode` call.
+pub fn decode_scope() -> Option<DecodeScope> {
+    if HOOKS.get().is_none() || IN_DECODE.with(|c| c.replace(true)) {
+        None
+    } else {
+        Some(DecodeScope(()))
+    }
+}
+impl Drop for DecodeScope {
+    fn drop(&mut self) {
+        IN_DECODE.with(|c| c.set(false));
+    }
+}
+
+pub struct LazyScope(usize);
+pub fn lazy_scope(addr: usize, initialised: bool) -> Option<LazyScope> {
+    match HOOKS.get() {
+        Some(h) if !initialised => {
+            (h.lazy_enter)(addr);
+            Some(LazyScope(addr))
+        }
+        _ => None,
+    }
+}
+impl Drop for LazyScope {
+    fn drop(&mut self) {
+        if let Some(h) = HOOKS.get() {
+            (h.lazy_exit)(self.0);
+        }
+    }
+}
